@@ -174,6 +174,8 @@ PINNED = [
     ('empty-class-first-char', 'xpath', '', _s(_q(_c([_l('a')], sub=_c([_l('a')])), 0, None, '*'), _l('b')), ['b', 'ab']),
     ('icase-subtraction', 'xpath', 'i', _c([('rng', 66, 98)], sub=_c([_l('b')])), ['b', 'B', 'C']),
     ('leading-dot-star-window', 'xpath', '', _q(('dot',), 0, None, '*'), ['\n', 'a\nb']),
+    ('supplementary-literal-closure', 'xsd', '', _s(_q(_l('\U00020000'), 0, None, '*'), _l('\U00020000'), _l('\U00020000')), ['\U00020000\U00020000', '\U00020000\U00020000\U00020000']),
+    ('icase-closure-case-variant', 'xpath', 'i', _s(_q(_l('d'), 0, None, '*'), _l('D')), ['D', 'dD', 'dd']),
 ]
 PINNED_HANG = ('lazy-unbounded-over-nullable', 'xpath', '', _s(_q(_g(_q(_l('a'), 0, None, '*')), 0, None, '*', True), _l('b')), ['aab', 'b'])
 
@@ -727,6 +729,50 @@ def sig(ast):
     return ','.join(keep) or 'plain'
 
 
+def _first_lit(n):
+    """code point of the literal an AST node necessarily starts with, else None"""
+    k = n[0]
+    if k == 'lit':
+        return n[1]
+    if k == 'grp':
+        return _first_lit(n[1])
+    if k == 'seq':
+        return _first_lit(n[1][0]) if n[1] else None
+    if k == 'rep' and n[2] >= 1:
+        return _first_lit(n[1])
+    return None
+
+
+def open_subclass(ast, flags):
+    """named sub-classes of the open closure classes: a closure over a literal x whose continuation starts with a literal y that the
+    engine's overlap test (which decides whether the closure may run without backtracking) wrongly takes for different from x"""
+    found = []
+
+    def walk(n):
+        k = n[0]
+        if k == 'seq':
+            kids = n[1]
+            for i, x in enumerate(kids[:-1]):
+                if x[0] == 'rep' and (x[3] is None or x[3] > x[2]):
+                    a, b = _first_lit(x[1]), _first_lit(kids[i + 1])
+                    if a is not None and b is not None:
+                        if a == b and a >= 0x10000:
+                            found.append('closure-over-supplementary-literal-before-same-literal')
+                        elif a != b and 'i' in flags and chr(a).lower() == chr(b).lower():
+                            found.append('icase-closure-over-literal-before-its-case-variant')
+            for x in kids:
+                walk(x)
+        elif k in ('grp',):
+            walk(n[1])
+        elif k == 'alt':
+            for x in n[1]:
+                walk(x)
+        elif k == 'rep':
+            walk(n[1])
+    walk(ast)
+    return found[0] if found else None
+
+
 def shrink_many(binary, items, J, rounds=24):
     """delta-debug several (expression, string) pairs at once, one driver batch per round.
     items: dicts with c, ast, s, direction.  Adds 'ast2', 's2' (local minimum that still disagrees the same way)."""
@@ -1184,7 +1230,7 @@ def classify(ck, binary, tri, overflow, J):
             elif label and CLASS_OF[label] not in OPEN_CLASSES:
                 it['cls'] = CLASS_OF[label]
             else:
-                it['cls'] = (CLASS_OF[label] if label else 'unexplained') + ':' + sig(it['ast2'])
+                it['cls'] = (CLASS_OF[label] if label else 'unexplained') + ':' + (open_subclass(it['ast2'], it['c'].meta['flags']) or sig(it['ast2']))
     for it in items:
         c, r, m = it['c'], it['r'], it['c'].meta
         D = dtag(m)
@@ -1203,6 +1249,10 @@ def classify(ck, binary, tri, overflow, J):
         else:
             f = it['f0']
             detail = it['cls']
+            if detail in OPEN_CLASSES:
+                sc = open_subclass(m['ast'], m['flags'])
+                if sc:
+                    detail = detail + ':' + sc
             if detail is None and f.get('what') == 'end' and fixed_string_end(m, f, c):
                 detail = 'fixed-string-uses-pattern-length'
             key = 'C11:%s:%s:%s' % (D, f['kind'], detail or f['what'])
